@@ -85,7 +85,7 @@ func mergeOps(ts []tok) []tok {
 }
 
 var identRename = map[string]string{
-	"old": "verif_old", "Z": "verif_Z", "Is": "verif_Is", "As": "verif_As",
+	"old": "verif_old", "Z": "verif_Z", "Is": "verif_Is", "As": "verif_As", "sameArray": "verif_sameArray", "unfold": "verif_unfold",
 }
 
 func rewriteSugar(src string) (string, error) {
